@@ -6,8 +6,14 @@ import (
 	"errors"
 	"fmt"
 	"io"
+	"os"
+	"path/filepath"
 	"runtime/debug"
 	"runtime/metrics"
+	"sort"
+	"strconv"
+	"strings"
+	"sync"
 
 	"golang.org/x/text/transform"
 
@@ -577,6 +583,48 @@ func init() {
 				},
 			},
 			{
+				// thorough tier only: everything Go's coverage-guided engine kept (interesting inputs and crashers, written by
+				// `go test -fuzz` which ./check runs first) is re-judged here by the deterministic monitors
+				Name: "fuzzfound",
+				N: func(t fw.Tier) uint64 {
+					if t != fw.Thorough {
+						return 0
+					}
+					return uint64(len(fuzzFiles())) + 1
+				},
+				Run: func(c *fw.Case) {
+					files := fuzzFiles()
+					if int(c.Idx) >= len(files) {
+						c.Count("fuzz_corpus_files", uint64(len(files)))
+						if b, err := os.ReadFile(os.Getenv("VERIF_FUZZ_LOG")); err == nil {
+							// last progress line of the engine: "fuzz: elapsed: 3s, execs: 200000 (43387/sec), new interesting: 344 (total: 471)"
+							lines := strings.Split(strings.TrimSpace(string(b)), "\n")
+							for i := len(lines) - 1; i >= 0; i-- {
+								if k := strings.Index(lines[i], "execs: "); k >= 0 {
+									var n uint64
+									fmt.Sscanf(lines[i][k+7:], "%d", &n)
+									c.Count("fuzz_engine_executions", n)
+									break
+								}
+							}
+						}
+						c.Cover("fuzzfound/engine-run-recorded")
+						return
+					}
+					sel, data, ok := readFuzzFile(files[c.Idx])
+					if !ok {
+						c.Count("fuzz_files_unreadable", 1)
+						return
+					}
+					s := c03st(c.W)
+					all := append(append(append([]target(nil), s.typed...), s.disp...), s.aux...)
+					tg := all[sel%len(all)]
+					err, _ := monitor(c, tg, data)
+					c.Count("fuzz_inputs_rejudged", 1)
+					c.Cover("fuzzfound/" + tg.name + "/" + outcome(err))
+				},
+			},
+			{
 				Name: "textparsers", N: q(300000, 10000000),
 				Run: func(c *fw.Case) {
 					s := c03st(c.W)
@@ -744,4 +792,154 @@ func textInput(c *fw.Case) ([]byte, string) {
 		b := r.Bytes(r.Range(0, 40))
 		return b, "random"
 	}
+}
+
+// ---------------------------------------------------------------------------
+// native fuzzing support (thorough tier): the same three resource monitors, callable from a Go fuzz target
+
+var fuzzJ struct {
+	once    sync.Once
+	targets []target
+	hooks   *fw.Hooks
+}
+
+func fuzzInit() {
+	fuzzJ.once.Do(func() {
+		ts := pdus.Load()
+		fuzzJ.targets = append(append(typedTargets(ts), dispatcherTargets()...), auxTargets()...)
+		fuzzJ.hooks = fw.NewHooks()
+		fw.InstallHooks(fuzzJ.hooks)
+	})
+}
+
+// C03TargetCount is the number of decoder/parser entry points the fuzz target can select.
+func C03TargetCount() int { fuzzInit(); return len(fuzzJ.targets) }
+
+// C03TargetName names entry point sel.
+func C03TargetName(sel int) string { fuzzInit(); return fuzzJ.targets[sel%len(fuzzJ.targets)].name }
+
+// C03Judge runs entry point sel on in under the panic / step-budget / allocation monitors and the
+// truncated-mandatory clause. sig == "" means nothing to report.
+func C03Judge(sel int, in []byte) (sig, detail string) {
+	fuzzInit()
+	tg := fuzzJ.targets[sel%len(fuzzJ.targets)]
+	if len(in) > 1<<16 {
+		in = in[:1<<16]
+	}
+	h := fuzzJ.hooks
+	measure := func() (err error, pan bool, val any, stack string, delta uint64) {
+		buf := append([]byte(nil), in...)
+		h.ResetCase(0)
+		h.SetBudget(64 * uint64(len(in)+1024))
+		a0 := allocBytes()
+		pan, val, stack = fw.Try(func() { err = tg.call(buf) })
+		a1 := allocBytes()
+		h.SetBudget(0)
+		return err, pan, val, stack, a1 - a0
+	}
+	err, pan, val, stack, d := measure()
+	if pan {
+		return fw.PanicSig(val, stack) + "/" + tg.name, fmt.Sprintf("target %s input(%d)=%s\npanic: %v\n%s", tg.name, len(in), hx(in), val, stack)
+	}
+	if !tg.allocExempt {
+		bound := uint64(2<<20) + 64*uint64(len(in))
+		for rep := 0; rep < 2 && d > bound; rep++ {
+			if _, _, _, _, d2 := measure(); d2 < d {
+				d = d2
+			}
+		}
+		if d > bound {
+			debug.FreeOSMemory()
+			return "alloc/" + tg.name, fmt.Sprintf("target %s allocated %d octets for a %d-octet input\ninput=%s", tg.name, d, len(in), hx(in))
+		}
+	}
+	if tg.typ != nil && err == nil && (len(in) < tg.typ.HeaderLen() || pdus.MandatoryLen(tg.typ, in) < 0) {
+		return "truncated-accepted/" + tg.name, fmt.Sprintf("%s accepted an input whose mandatory part is incomplete\ninput(%d)=%s", tg.name, len(in), hx(in))
+	}
+	return "", ""
+}
+
+// C03FuzzSeeds returns (selector, image) seeds for the fuzz corpus: one reference image per PDU type for its
+// typed decoder and its dispatcher, and a few text-parser inputs.
+func C03FuzzSeeds() (sels []int, data [][]byte) {
+	fuzzInit()
+	ts := pdus.Load()
+	r := fw.NewRng(20261003)
+	idx := map[string]int{}
+	for i, tg := range fuzzJ.targets {
+		idx[tg.name] = i
+	}
+	for _, t := range ts.Types {
+		v, _ := pdus.Gen(t, r, -1, 0)
+		img := pdus.RefEncode(t, v)
+		if len(img) > 400 {
+			continue
+		}
+		sels, data = append(sels, idx[t.Family+"."+t.Go+".IDecode"]), append(data, img)
+		sels, data = append(sels, idx["Decode/"+t.Family]), append(data, img)
+	}
+	for name, in := range map[string]string{
+		"smgp30.ExtractDeliveryReceipt": "id:0123456789 sub:001 Dlvrd:001 Submit_Date:2410011200 done date:2410011201 stat:DELIVRD err:000 text:hello",
+		"smpp34.ExtractDeliveryReceipt": "id:abc sub:001 dlvrd:001 submit date:2410011200 done date:2410011201 stat:DELIVRD err:000 text:hi",
+		"ParseLongSmsContent":           "\x05\x00\x03\x6b\x02\x01payload",
+		"gsm7encoding.Unpack+Decode":    "\xd4\xf2\x9c\x0e\x9a\x36\xa7\x2e",
+		"smpp.ReadTLVs":                 "\x02\x04\x00\x02\x00\x01\x13\x0c\x00\x00",
+		"smgp.ParseOptions":             "\x00\x01\x00\x01\x00\x00\x02\x00\x01\x01",
+		"cmpp.MsgIDString2Uint64":       "0101000000000000100001",
+		"datacoding.GB18030.Decode":     "\xd6\xd0\xce\xc4\x81\x30\x81\x30",
+		"datacoding.UCS2.Decode":        "\x4e\x2d\xd8\x3d\xde\x00",
+	} {
+		if i, ok := idx[name]; ok {
+			sels, data = append(sels, i), append(data, []byte(in))
+		}
+	}
+	return
+}
+
+// fuzzFiles lists the corpus files of the native fuzz run (VERIF_FUZZ_DIRS = colon-separated directories).
+func fuzzFiles() []string {
+	var out []string
+	for _, d := range strings.Split(os.Getenv("VERIF_FUZZ_DIRS"), ":") {
+		if d == "" {
+			continue
+		}
+		_ = filepath.Walk(d, func(p string, info os.FileInfo, err error) error {
+			if err == nil && !info.IsDir() {
+				out = append(out, p)
+			}
+			return nil
+		})
+	}
+	sort.Strings(out)
+	return out
+}
+
+// readFuzzFile parses Go's corpus file format ("go test fuzz v1", one value per line).
+func readFuzzFile(path string) (sel int, data []byte, ok bool) {
+	b, err := os.ReadFile(path)
+	if err != nil {
+		return 0, nil, false
+	}
+	lines := strings.Split(strings.TrimSpace(string(b)), "\n")
+	if len(lines) < 3 || !strings.HasPrefix(lines[0], "go test fuzz v1") {
+		return 0, nil, false
+	}
+	for _, ln := range lines[1:] {
+		ln = strings.TrimSpace(ln)
+		switch {
+		case strings.HasPrefix(ln, "uint16(") && strings.HasSuffix(ln, ")"):
+			n, err := strconv.ParseUint(ln[7:len(ln)-1], 0, 16)
+			if err != nil {
+				return 0, nil, false
+			}
+			sel = int(n)
+		case strings.HasPrefix(ln, "[]byte(") && strings.HasSuffix(ln, ")"):
+			q, err := strconv.Unquote(ln[7 : len(ln)-1])
+			if err != nil {
+				return 0, nil, false
+			}
+			data = []byte(q)
+		}
+	}
+	return sel, data, true
 }
